@@ -320,7 +320,7 @@ Proof.
       (ev c x yb j x' yb' m') = true).
   { intros x' yb' H. rewrite band_spec, !bor_spec, Hlim, andb_true_r. exact H. }
   unfold streett_action. cbv zeta. unfold NBm in *.
-  destruct plus_one eqn:Ep.
+  destruct plus_one eqn:Ep; cbn [negb].
   - destruct moore eqn:Em.
     + destruct Hnb as [yb' [Hyb' Hall]]. exists yb'. split; [exact Hyb'|].
       intros x' Hx'. apply Hu0, Hall, Hx'.
